@@ -3,13 +3,17 @@ Require Import Value Bytes GenMisc MiscModel ImageModel ImageProofs.
 Import ListNotations.
 Local Open Scope Z_scope.
 
-(* C16: the ordered add_binary(..., overwrite=True) calls of save_binary_image HEX / S19 describe exactly the
-   exported bytes at the image's absolute addresses, and nothing outside -- when every node has a pattern
-   (what nxpimage's config loader produces).  Without that premise the statement is false: hex_view_is_export_refuted. *)
+(* C16: the ordered add_binary(..., overwrite=True) calls of save_binary_image HEX / S19 (writes; f = "an ancestor has
+   already written data", false at the root) describe the exported bytes at the image's absolute addresses:
+   every position the writer covers holds the export() byte, every position it leaves out is a zero in export()
+   (so the zero fill of a loaded image's gaps agrees), and nothing outside the image's extent is touched.
+   No premise on patterns is needed any more (the former finding C16-F1 is repaired in /repo). *)
 Theorem hex_view_is_export :
-  forall (i : img) (base : Z), wf i -> validate i = true -> all_pat i ->
+  forall (i : img) (f : bool) (base : Z), wf i -> validate i = true ->
   (forall k cur, 0 <= k < ilen i ->
-     exists b, export i = Ok b /\ mem_at (writes base i) (base + ioff i + k) cur = getz b k) /\
-  (forall x cur, ~ (base + ioff i <= x < base + ioff i + ilen i) -> mem_at (writes base i) x cur = cur).
+     exists b, export i = Ok b /\
+               mem_at (writes f base i) (base + ioff i + k) cur = (if covered f i k then getz b k else cur) /\
+               (covered f i k = false -> getz b k = Some 0%N)) /\
+  (forall x cur, ~ (base + ioff i <= x < base + ioff i + ilen i) -> mem_at (writes f base i) x cur = cur).
 Proof. exact hex_view_is_export_full. Qed.
 Print Assumptions hex_view_is_export.
